@@ -76,8 +76,21 @@ def sequences(cfg):
     return seqs
 
 
+def targeted():
+    """state that must survive an alias()-enabled subquery: grouping, column order, hidden columns"""
+    C = lambda p: p.C  # noqa: E731
+    T = []
+    T.append(("grouped_through_subquery", lambda p, t, u: t >> p.group_by(t.g) >> p.mutate(r=p.rank(arrange=[t.b.nulls_last()])) >> p.alias("z") >> p.filter(p.C.r <= 2) >> p.mutate(n=p.C.b.sum()) >> p.ungroup()))
+    T.append(("grouped_through_subquery_summarize", lambda p, t, u: t >> p.group_by(t.g) >> p.mutate(r=p.rank(arrange=[t.b.nulls_last()])) >> p.alias("z") >> p.filter(p.C.r <= 2) >> p.summarize(n=p.count(), s=p.C.b.sum())))
+    T.append(("grouped_slice_like", lambda p, t, u: t >> p.group_by(t.g) >> p.mutate(r=p.row_number(arrange=[t.a.nulls_last(), t.b.nulls_last()])) >> p.alias("z") >> p.filter(p.C.r == 1) >> p.mutate(m=p.C.b.max(), k=p.C.a.min()) >> p.ungroup()))
+    T.append(("hidden_through_subquery", lambda p, t, u: t >> p.mutate(a=t.a + 1) >> p.arrange(p.C.a.nulls_last(), t.b.nulls_last(), t.g.nulls_last()) >> p.slice_head(2) >> p.alias("z", keep_col_refs=True) >> p.filter(t.a > 0) >> p.mutate(w=t.a, v=p.C.a)))
+    T.append(("reorder_through_subquery", lambda p, t, u: t >> p.select(t.g, t.a, t.b) >> p.mutate(a=t.b) >> p.arrange(t.b.nulls_last(), t.g.nulls_last(), t.a.nulls_last()) >> p.slice_head(2) >> p.alias("z") >> p.filter(p.C.g.is_not_null())))
+    T.append(("two_subqueries", lambda p, t, u: t >> p.mutate(s=t.b.sum(partition_by=t.g)) >> p.alias("y") >> p.filter(p.C.s > 0) >> p.mutate(r=p.row_number(arrange=[p.C.a.nulls_last(), p.C.b.nulls_last(), p.C.g.nulls_last()])) >> p.alias("z") >> p.filter(p.C.r <= 2)))
+    return T
+
+
 def templates(cfg):
-    out = []
+    out = [Template(f"c08.t.{name}", SRC, prog, props=("C08",)) for name, prog in targeted()]
     for seq, mask in sequences(cfg):
         out.append(
             Template(f"c08.{seq_name(seq, mask)}", SRC, prog_of(seq, mask), props=("C08",), tags=("nonlinear",) if False else ())
